@@ -641,7 +641,7 @@ def gen_c15(rng, probe, tier):
                     calls.append(call("ext_dirty", [f], d + extra, ids=[1], ctx=ctx))
                 else:
                     calls.append(call(rng.choice(["formula", "tree", "multi"]), [f], d + extra, ids=[1]))
-                    calls.append(call(rng.choice(["formula_dirty", "tree_dirty"]), [f], d + extra, ids=[1]))
+                    calls.append(call(rng.choice(["formula_dirty", "tree_dirty"]), [f], d + extra, ids=[1], san_proj=True))
             cases.append({"id": "%s-k%d" % (m["id"], j), "net": m["id"], "kinds": ["equal", "canon", "denote"], "calls": calls})
     return nets, cases, ["equal", "canon"]
 
